@@ -37,6 +37,8 @@ REF_OPS = {"CopyAssign", "MoveAssign", "PreInc", "PreDec", "AddAssign", "SubAssi
 GRAPHS = {
     "w3full": ("cfg/QsbrPtr/w3full.cfg", 3, 0, 2, 4, 1),
     "w2s2few": ("cfg/QsbrPtr/w2s2few.cfg", 2, 2, 2, 4, 1),
+    "w2s1all": ("cfg/QsbrPtr/w2s1all.cfg", 2, 1, 2, 4, 1),
+    "w1s2few": ("cfg/QsbrPtr/w1s2few.cfg", 1, 2, 2, 4, 1),
     "w3s2d3": ("cfg/QsbrPtr/w3s2d3.cfg", 3, 2, 2, 4, 1),
 }
 SIM = ("cfg/QsbrPtr/sim.cfg", 3, 2, 2, 4, 60)          # cfg, NW, NS, NB, N, SimLen
@@ -44,14 +46,16 @@ RANDOM_SHAPES = [(4, 3, 3, 6), (3, 2, 2, 4), (6, 4, 4, 15), (2, 2, 1, 3)]   # NW
 
 TIERS = {
     # graphs: instances whose edges are covered by replay; quiet: invariants only;
-    # probe_mod: one step in probe_mod is probed (dbg; both kinds), plus the first visit of
-    # every state up to state_probes; nd_probe_mod the same for the ndebug build
-    "quick": dict(graphs=["w3full", "w3s2d3"], quiet=[], sims=60, probe_mod=12, state_probes=6000,
+    # probe_mod: one step in probe_mod is probed (both kinds), plus the first visit of every
+    # state up to state_probes; nd_probe_mod: the ndebug build makes every n-th of those probes;
+    # tv_mod: TLC trace validation of one replay recording in tv_mod (all random and
+    # simulation recordings are always validated; a recording with a comparison mismatch too)
+    "quick": dict(graphs=["w3full", "w2s1all", "w1s2few"], quiet=[], sims=60, probe_mod=12, state_probes=6000,
                   nd_probe_mod=5, chunk=300, parts=8, random_runs=12, random_seqs=30, random_ops=250,
-                  random_probe_pct=35),
-    "thorough": dict(graphs=["w3full", "w2s2few", "w3s2d3"], quiet=["cfg/QsbrPtr/w3s2d5quiet.cfg"], sims=1500,
-                     probe_mod=1, state_probes=0, nd_probe_mod=6, chunk=300, parts=16, random_runs=64,
-                     random_seqs=60, random_ops=400, random_probe_pct=100),
+                  random_probe_pct=35, tv_mod=4),
+    "thorough": dict(graphs=["w3full", "w2s1all", "w1s2few", "w2s2few", "w3s2d3"], quiet=["cfg/QsbrPtr/w3s2d5quiet.cfg"],
+                     sims=1500, probe_mod=1, state_probes=0, nd_probe_mod=6, chunk=300, parts=16, random_runs=64,
+                     random_seqs=60, random_ops=400, random_probe_pct=100, tv_mod=1),
 }
 
 
@@ -134,6 +138,35 @@ def cover_walk(nstates, edges, root, chunk):
                 seen[t] = i
         succ1.append(list(seen.values()))
 
+    # next edge of a shortest path back to root (complete graphs: Destroy edges)
+    home = [None] * nstates
+    rin = [[] for _ in range(nstates)]
+    for i, e in enumerate(edges):
+        if e[0] != e[7]:
+            rin[e[7]].append(i)
+    hq = [root]
+    hseen = [False] * nstates
+    hseen[root] = True
+    for t in hq:
+        for i in rin[t]:
+            f = edges[i][0]
+            if not hseen[f]:
+                hseen[f] = True
+                home[f] = i
+                hq.append(f)
+
+    def go_home(cur, b):
+        """append the edges leading from cur back to root; False if there is no way"""
+        p = []
+        while cur != root:
+            i = home[cur]
+            if i is None:
+                return False
+            p.append(i)
+            cur = edges[i][7]
+        b.extend(p)
+        return True
+
     def path_from_root(t):
         p = []
         while t != root:
@@ -150,6 +183,7 @@ def cover_walk(nstates, edges, root, chunk):
     optr = 0
     while remaining > 0:
         if len(cur_b) >= chunk and cur != root:
+            go_home(cur, cur_b)
             behaviours.append(cur_b)
             cur_b = []
             cur = root
@@ -189,6 +223,7 @@ def cover_walk(nstates, edges, root, chunk):
             continue
         # restart from root and walk down the BFS tree to the shallowest state with work
         if cur_b:
+            go_home(cur, cur_b)
             behaviours.append(cur_b)
             cur_b = []
         cur = root
@@ -201,8 +236,19 @@ def cover_walk(nstates, edges, root, chunk):
         cur_b.extend(p)
         cur = tgt
     if cur_b:
+        go_home(cur, cur_b)
         behaviours.append(cur_b)
     return behaviours
+
+
+_jd_cache = {}
+
+
+def jd(v):
+    r = _jd_cache.get(v)
+    if r is None:
+        r = _jd_cache[v] = json.dumps(v, separators=(",", ":"))
+    return r
 
 
 def write_parts(name, d, shape, behaviours_steps, init_state, init_qa, nparts, tcfg, seed, probe_all_ends=False):
@@ -240,7 +286,7 @@ def write_parts(name, d, shape, behaviours_steps, init_state, init_qa, nparts, t
         fexp.write(json.dumps({"k": "B", "bid": bid, "w": init_state[0], "s": init_state[1], "qa": init_qa}) + "\n")
         for i, (op, x, y, z, u, res, w, s, qa) in enumerate(b):
             pr = 0
-            st = repr((w, s))
+            st = (w, s)
             if tcfg["probe_mod"] <= 1 or h32(seed, name, bid, i) % tcfg["probe_mod"] == 0:
                 pr = 3
             elif st not in probed_states and len(probed_states) < tcfg["state_probes"]:
@@ -249,8 +295,8 @@ def write_parts(name, d, shape, behaviours_steps, init_state, init_qa, nparts, t
                 probed_states.add(st)
                 cur["probes_requested"] += 1
             fin.write("S %s %d %d %d %d %d\n" % (op, x, y, z, u, pr))
-            fexp.write(json.dumps({"k": "S", "bid": bid, "i": i, "op": op, "x": x, "y": y, "z": z, "u": u,
-                                   "res": res, "w": w, "s": s, "qa": qa, "pr": pr}) + "\n")
+            fexp.write('{"k":"S","bid":%d,"i":%d,"op":"%s","x":%d,"y":%d,"z":%d,"u":%d,"res":%s,"w":%s,"s":%s,"qa":%s,"pr":%d}\n'
+                       % (bid, i, op, x, y, z, u, jd(res), jd(w), jd(s), "true" if qa else "false", pr))
         endpr = 3 if (probe_all_ends or tcfg["probe_mod"] <= 1 or h32(seed, name, bid, "end") % 8 == 0) else 0
         fin.write("E %d\n" % endpr)
         fexp.write(json.dumps({"k": "E", "bid": bid, "pr": endpr, "qa": init_qa}) + "\n")
@@ -292,11 +338,10 @@ def graph_job(args):
         for i in b:
             e = edges[i]
             w, s = states[e[7]]
-            ss.append((e[1], e[2], e[3], e[4], e[5], list(e[6]), [list(v) for v in w], [list(v) for v in s], e[8]))
+            ss.append((e[1], e[2], e[3], e[4], e[5], e[6], w, s, e[8]))
         steps.append(ss)
     iw, isp = states[init]
-    parts = write_parts(name, d, (NW, NS, NB, N), steps, ([list(v) for v in iw], [list(v) for v in isp]), init_qa,
-                        tcfg["parts"], tcfg, seed)
+    parts = write_parts(name, d, (NW, NS, NB, N), steps, (iw, isp), init_qa, tcfg["parts"], tcfg, seed)
     per_action = {}
     for e in edges:
         per_action[e[1]] = per_action.get(e[1], 0) + 1
@@ -338,8 +383,8 @@ def sim_job(args):
             if key in seen:
                 continue
             seen.add(key)
-            behs.append([(h["a"]["op"], h["a"]["x"], h["a"]["y"], h["a"]["z"], h["a"]["u"], h["a"]["res"],
-                          h["t"][0], h["t"][1], bool(h["qa"])) for h in dd["hist"]])
+            behs.append([(h["a"]["op"], h["a"]["x"], h["a"]["y"], h["a"]["z"], h["a"]["u"], tuple(h["a"]["res"]))
+                         + _tup(h["t"]) + (bool(h["qa"]),) for h in dd["hist"]])
     m = None
     import re
     m = re.search(r"The number of states generated: (\d+)", r.out)
@@ -348,7 +393,7 @@ def sim_job(args):
         raise vlib.CheckBroken("no behaviours out of TLC simulation:\n%s" % r.out[-1500:])
     tc = dict(tcfg)
     tc["probe_mod"] = 1 if tier == "thorough" else 4
-    parts = write_parts("sim", d, (NW, NS, NB, N), behs, init, init_qa, max(1, tcfg["parts"] // 2), tc, seed)
+    parts = write_parts("sim", d, (NW, NS, NB, N), behs, _tup(init), init_qa, max(1, tcfg["parts"] // 2), tc, seed)
     log("[C17] sim: %d behaviours of %d steps (%d states generated) in %.0fs" % (len(behs), simlen, gen, r.wall))
     return dict(name="sim", cfg=cfg, behaviours=len(behs), steps=sum(len(b) for b in behs), generated=gen, parts=parts,
                 sample={"graph": "sim", "behaviour_prefix": [list(s[:5]) + [{"res": s[5], "w": s[6], "s": s[7], "accepted": s[8]}]
